@@ -1013,9 +1013,8 @@ load_latest() {
               << " is out of sync with the compiled-in data"
               << " (" << file_identifier << " != " << def->file_identifier << ").\n";
             set_error_flag(true);
-          }
 
-          if (_file_major_version != _current_major_version ||
+          } else if (_file_major_version != _current_major_version ||
               _file_minor_version > _current_minor_version) {
             std::cerr
               << "Cannot read interrogate data in " << pathname
